@@ -25,6 +25,8 @@ def in_scope(prop: str, short: str, cls: str, member: str) -> bool:
             return True
         if prop == "C11" and "scale" in tag:
             return False  # the scale-mean standard deviation / error are C14's
+        if prop == "C11" and short in ("matrix/subtotals.py", "stripe/insertion.py") and ("positiveterm" in tag or "negativeterm" in tag):
+            return True  # Np and Nn of the three-term variance
         return short in MEASURE_MODULES + ("matrix/cubemeasure.py", "stripe/cubemeasure.py", "matrix/subtotals.py", "stripe/insertion.py", "cube.py") and any(w in tag for w in WORDS[prop])
     if prop == "C01":
         return short in ("cube.py", "matrix/cubemeasure.py", "stripe/cubemeasure.py") and "unconditional" not in tag
